@@ -201,16 +201,25 @@ def s6(chk: Check, proj: Project, w) -> None:
 
     # hand-over renderer -> attribute step: the inherited list arrives unchanged
     km = proj.mod("component")
-    rs = [(q, fn) for q, fn in sorted(km.defs.items()) if isinstance(fn, ast.FunctionDef) and "root_attributes" in params(fn) and calls(fn, "set_component_attrs_for_js_and_css")]
+    rs = [(q, fn) for q, fn in sorted(km.defs.items()) if isinstance(fn, ast.FunctionDef) and any(enclosing_func(c_) is fn for c_ in calls(fn, "set_component_attrs_for_js_and_css"))]
+    dps = params(df)
+    ra_name = next((p_ for p_ in dps if "root" in p_), None)
+    if ra_name is None:
+        raise AnalysisError("anchor vanished: the root-attribute parameter of set_component_attrs_for_js_and_css")
     if not rs:
         raise AnalysisError("anchor vanished: renderer(root_attributes) calling set_component_attrs_for_js_and_css")
     for q, fn in rs:
         chk.analysed(fkey(km, fn))
         for c in calls(fn, "set_component_attrs_for_js_and_css"):
-            val = next((k.value for k in c.keywords if k.arg == "root_attributes"), None)
+            if enclosing_func(c) is not fn:
+                continue
+            val = next((k.value for k in c.keywords if k.arg == ra_name), None)
+            if val is None and dps.index(ra_name) < len(c.args):
+                val = c.args[dps.index(ra_name)]
             bad = None
-            if not (isinstance(val, ast.Name) and val.id == "root_attributes"):
-                bad = (c, f"the call passes `root_attributes={short(val) if val is not None else '<nothing>'}`, not the list the parent handed down")
+            if not (isinstance(val, ast.Name) and val.id in params(fn)):
+                bad = (c, f"the call passes `{ra_name}={short(val) if val is not None else '<nothing>'}`, not the list the parent handed to the renderer")
+            pname = val.id if isinstance(val, ast.Name) else ""
             for x in ast.walk(fn):
                 if bad:
                     break
@@ -223,9 +232,9 @@ def s6(chk: Check, proj: Project, w) -> None:
                     tg = x.targets
                 for t in tg:
                     for y in ast.walk(t):
-                        if isinstance(y, ast.Name) and y.id == "root_attributes":
+                        if isinstance(y, ast.Name) and y.id == pname:
                             bad = (x, f"`{short(x)}` replaces or cuts the inherited list before it is applied")
-                if isinstance(x, ast.Call) and isinstance(x.func, ast.Attribute) and isinstance(x.func.value, ast.Name) and x.func.value.id == "root_attributes" and x.func.attr in ("pop", "clear", "remove", "sort", "reverse", "insert"):
+                if isinstance(x, ast.Call) and isinstance(x.func, ast.Attribute) and isinstance(x.func.value, ast.Name) and x.func.value.id == pname and x.func.attr in ("pop", "clear", "remove", "sort", "reverse", "insert"):
                     bad = (x, f"`{short(x)}` mutates the inherited list before it is applied")
             chk.ob("S6", f"component:{q.split('.')[-2] if '.' in q else q}.renderer:inherited-attributes-handed-over-unchanged", km.loc(bad[0]) if bad else km.loc(c), bad is None,
                    "the renderer passes the `root_attributes` it received to set_component_attrs_for_js_and_css without reassigning, cutting or mutating it" if bad is None else
